@@ -832,6 +832,10 @@ class Universe:
         if k == 'bytes':
             cs.append(U.bval(t) == BYTES_CONSTS.get(obj, 1000 + (hash(obj) % 100000)))
             cs.append(U.len(t) == len(obj))
+            if depth > 0 and len(obj) <= 3:
+                for i, byte in enumerate(obj):
+                    it = U.item_of(t, i)
+                    cs.extend([U.cls(it) == U.K['int'], U.ival(it) == byte])
             return cs
         if k in ('seq', 'coll', 'iterable', 'range'):
             src = obj._i if hasattr(obj, '_i') else list(obj)
